@@ -538,3 +538,91 @@ pub fn lockstep(seed: u64, bases: &str, count: u64, max_ops: u64, outdir: &str, 
         println!("HIST {} {}", k, v);
     }
 }
+
+// ---------------------------------------------------------------------------------------------
+// C03 with stale handles: on VALID files, histories in which handles outlive their streams (the stream
+// is removed or overwritten, the freed slot is taken by a storage or another stream) and are used
+// afterwards.  Such a call is answered with an error or acts on whatever stream now lives in the slot;
+// either way every image a history of calls leaves must still be well-formed: at the end the handles
+// are dropped, the bytes must reopen in strict mode, and the image is kept for the independent
+// checker (`driver speccheck`).
+
+pub fn stale(seed: u64, bases: &str, count: u64, max_ops: u64, outdir: &str, list_path: &str) {
+    use std::fmt::Write as _;
+    let mut rng = Rng::new(seed);
+    let files: Vec<String> = std::fs::read_to_string(bases).unwrap().lines().filter(|l| !l.is_empty()).map(|s| s.to_string()).collect();
+    let images: Vec<Vec<u8>> = files.iter().filter_map(|f| std::fs::read(f).ok()).filter(|b| b.len() >= 1536 && b.len() < 400_000).collect();
+    std::fs::create_dir_all(outdir).unwrap();
+    let mut list = String::new();
+    let (mut histories, mut calls, mut stale_calls) = (0u64, 0u64, 0u64);
+    let mut reported = 0;
+    for k in 0..count {
+        let b = rng.pick(&images).clone();
+        let shared = SharedFile::new(b.clone());
+        let Ok(Ok(comp)) = catch(|| CompoundFile::open_strict(Backend::Mem(shared.clone()))) else { continue };
+        let mut real = Real::new();
+        real.file = Some(ImageSource::Mem(shared.clone()));
+        real.comp = Some(comp);
+        progress(&format!("new stale-handles case {}", k));
+        histories += 1;
+        let mut open: Vec<(u32, String)> = Vec::new();
+        let mut history: Vec<String> = Vec::new();
+        let mut panicked = false;
+        for step in 0..(4 + rng.below(max_ops)) {
+            let listing = catch(|| {
+                let c = real.comp.as_ref().unwrap();
+                c.walk().take(200).map(|e| (e.path().to_string_lossy().to_string(), e.is_stream(), e.len())).collect::<Vec<(String, bool, u64)>>()
+            });
+            let Ok(listing) = listing else { break };
+            let streams: Vec<(String, u64)> = listing.iter().filter(|x| x.1).map(|x| (x.0.clone(), x.2)).collect();
+            let storages: Vec<String> = listing.iter().filter(|x| !x.1 && x.0 != "/").map(|x| x.0.clone()).collect();
+            // bias: remove a stream a handle is bound to, then create something (the slot is reused)
+            let line = if !open.is_empty() && rng.chance(1, 4) {
+                let p = rng.pick(&open).1.clone();
+                if streams.iter().any(|s| s.0 == p) { format!("rm {}", enc(&p)) } else if rng.chance(1, 2) { format!("mkdir {}", enc(&format!("/st{}", step))) } else { format!("put {} {}", enc(&format!("/ns{}", step)), hex(&pattern(*rng.pick(SIZES), step))) }
+            } else {
+                gen_line(&mut rng, &streams, &storages, &mut open, step, true)
+            };
+            if line.starts_with('h') && !line.starts_with("hopen") {
+                if let Some(id) = line.split(' ').nth(1).and_then(|x| x.parse::<u32>().ok()) {
+                    if let Some((_, p)) = open.iter().find(|o| o.0 == id) {
+                        if !streams.iter().any(|s| &s.0 == p) {
+                            stale_calls += 1;
+                        }
+                    }
+                }
+            }
+            history.push(line.clone());
+            let r = real.exec(&line);
+            calls += 1;
+            if r == "panic" {
+                panicked = true;
+                break;
+            }
+        }
+        if panicked {
+            continue; // C11's subject
+        }
+        // drop every handle (write-backs of stale handles fail, which is fine), flush, and judge the bytes
+        let ids: Vec<u32> = real.handles.keys().cloned().collect();
+        for id in ids {
+            let _ = real.exec(&format!("hclose {}", id));
+        }
+        let _ = real.exec("flush");
+        let bytes = shared.snapshot();
+        let path = format!("{}/S{}.cfb", outdir, k);
+        std::fs::write(&path, &bytes).unwrap();
+        std::fs::write(format!("{}/S{}.history", outdir, k), history.join("\n") + "\n").unwrap();
+        writeln!(list, "{}", path).unwrap();
+        if let Err(e) = CompoundFile::open_strict(std::io::Cursor::new(bytes)) {
+            if reported < 3 {
+                reported += 1;
+                println!("ORACLE stale-handles case {} (seed {}): after a history in which handles outlive their streams the bytes no longer open strictly: {} [image {} history {}/S{}.history]", k, seed, e, path, outdir, k);
+            }
+        }
+    }
+    std::fs::write(list_path, list).unwrap();
+    println!("STAT stale_histories {}", histories);
+    println!("STAT stale_calls {}", calls);
+    println!("STAT stale_handle_calls {}", stale_calls);
+}
